@@ -1,5 +1,5 @@
 """Checks for the simulator properties (C01, C11, ...)."""
-import json, os, re
+import json, os, re, shutil, subprocess
 from common import *
 
 INS_OP = ["DAT","MOV","ADD","SUB","MUL","DIV","MOD","CMP","SEQ","SNE","SLT","JMP","JMZ","JMN","DJN","SPL","NOP"]
@@ -93,13 +93,28 @@ def check_C01(ctx):
     reproduce_steps(ctx, "C01", rej)
 
 
+def prove_fold_lemma(ctx):
+    """TLAPS: unbounded proof of the folding lemma (any core size, any limit <= core, any pointer)."""
+    d = ctx.sub("tlaps")
+    shutil.copy(os.path.join(SPEC, "FoldLemma.tla"), d)
+    p = subprocess.run(["timeout", "600", "tlapm", "--threads", "8", "FoldLemma.tla"], cwd=d, capture_output=True, text=True)
+    out = p.stdout + p.stderr
+    m = re.search(r"All (\d+) obligations? proved", out)
+    if p.returncode != 0 or not m:
+        raise ToolError("TLAPS did not prove FoldLemma.tla:\n" + out[-1500:])
+    ctx.notes["tlaps_fold_lemma"] = "FoldLemma.tla: all %s obligations proved by tlapm (FoldBound, FoldNoLimit, FoldIsFoldR, FoldLemma for unbounded M, lim, p)" % m.group(1)
+    ctx.cov["obligations"] = int(m.group(1))
+    ctx.cov["discharged"] = int(m.group(1))
+
+
 def check_C11(ctx):
     ctx.cov["rule"] = ("real single steps with every limit pair 1<=R,W<=M (M<=16; sampled above) and operands placed just inside/outside "
                        "floor(W/2), floor(R/2); TLC evaluates the three C11 predicates on the RECORDED pre/post states "
                        "(changed cells within floor(W/2); successors pc+1/pc+2 or within floor(R/2); R=W=M equals the no-limit step). "
                        "distinct_nontrivial = steps with R<M or W<M.")
-    ctx.cov["trusted_base"] = ["harness/enc.go instruction table", "generic core diff in harness/steps.go", "TLC", "CommunityModules Json"]
+    ctx.cov["trusted_base"] = ["harness/enc.go instruction table", "generic core diff in harness/steps.go", "TLC", "CommunityModules Json", "tlapm + Z3 (FoldLemma)"]
     spec_step_model(ctx)
+    prove_fold_lemma(ctx)
     if ctx.quick:
         shards, st = gen_steps(ctx, ["-shards", 16, "-M", "8,13", "-reps", 0, "-limits"])
         s2, st2 = gen_steps(ctx, ["-shards", 8, "-M", "6", "-reps", 1], name="forms")
@@ -209,6 +224,9 @@ def spec_battle_model(ctx):
     cfg = "MC_Battle.cfg" if ctx.quick else "MC_Battle_thorough.cfg"
     r = ctx.tlc("MC_Battle", cfg=cfg, workers=NCPU, timeout=7000, heap="24g")
     ctx.notes["spec_model"] = "%s: %d distinct states; Safe, RefAgree (independent flat scheduler), CycleProps, RunIsStepping, RotInv, EvProps hold" % (cfg, r["distinct"])
+    if not ctx.quick:
+        r3 = ctx.tlc("MC_Battle", cfg="MC_Battle_3w.cfg", workers=NCPU, timeout=7000, heap="24g")
+        ctx.notes["spec_model_3_warriors"] = "MC_Battle_3w.cfg: %d distinct states" % r3["distinct"]
 
 
 def check_C02(ctx):
